@@ -25,9 +25,15 @@ def run_one(m):
         b = subprocess.run(["go", "build", "./..."], cwd=repo, env=env, capture_output=True, text=True)
         if b.returncode != 0:
             return m, "NOBUILD", b.stderr[-300:]
-        t = subprocess.run(["go", "test", "-vet=off", "-count=1", "./..."], cwd=repo, env=env, capture_output=True, text=True)
-        if t.returncode != 0:
-            return m, "TESTS-FAIL", t.stdout[-300:]
+        # two tests of the suite are timing-dependent and fail now and then under load: a run failing only in them is repeated
+        import re
+        for attempt in range(3):
+            t = subprocess.run(["go", "test", "-vet=off", "-count=1", "./..."], cwd=repo, env=env, capture_output=True, text=True)
+            if t.returncode == 0:
+                break
+            failing = set(re.findall(r"^--- FAIL: (\w+)", t.stdout, re.M))
+            if not failing or not failing <= {"TestJoe_Shutdown", "TestConnection_Unsubscriptions"} or attempt == 2:
+                return m, "TESTS-FAIL", t.stdout[-300:]
         r = subprocess.run([os.path.join(VERIF, "bin/govc"), "-repo", repo, "-verif", vdir, "-prop", m["prop"], "-nocache"],
                            capture_output=True, text=True, timeout=900)
         out = r.stdout + r.stderr
